@@ -15,8 +15,10 @@
      directives — `plainBlock` of every template —, `EscapeHtmlIs`); `gen_correct_registry_cmds_partial`: the same for
      commands inside a template.  `gen_complete_registry_partial`: the converse against the reference semantics
      (`refCall`) — the function returns the text or leaves the subset, it does not throw;
-     `gen_complete_registry_spec_partial`: against Spec/Eval.render with the one missing lemma as the named hypothesis
-     `hthrow`.
+     `gen_complete_registry_spec_partial` / `gen_complete_file_partial`: the same against Spec/Eval.render itself, same
+     hypotheses (`renderTmpl_le`: on directive-free templates the reference renders whatever Spec/Eval renders — Props/C04d
+     `spec_le_ref_*`, the reference's print falling back to Spec/Eval's where the JSON image is silent — so
+     `calls_table_throw`: where a generated function throws, Spec/Eval does not render).
   The function header is generator output here (`renderFunc`), and its meaning is the trusted `callFn` of Spec/JsStmt
   (tied to otto by the harness property C04sem, which runs the entry function THROUGH the table).
 -/
@@ -398,17 +400,40 @@ theorem gen_complete_registry_partial (htab : TableOk reg table) (name : Bytes) 
   | error => exact absurd ht (h2 name ce jd jij hj hij hgl hx t text hlk)
   | unspec => exact Or.inr rfl
 
-/-- the converse against Spec/Eval.render itself.  PARTIAL, one lemma missing, kept as the NAMED hypothesis `hthrow`:
-    "where the generated function throws, Spec/Eval does not render" (`CallRelE` against Spec/Eval.renderTmpl; proved
-    above against the reference `refCall` only — the step from the reference to Spec/Eval needs that the reference stops
-    with an ERROR, not with `unspec`, wherever the JavaScript throws, which the `…_ne` lemmas of Props/C04e do not say).
-    The value case needs no hypothesis: a returned text is Spec/Eval's. -/
+/-- … and conversely: on directive-free templates the reference's call renders everything Spec/Eval.renderTmpl renders
+    (`spec_le_ref_block`: the reference's print falls back to Spec/Eval's where the JSON image is silent) -/
+theorem renderTmpl_le (hesc : EscapeHtmlIs F) (hasBundle : Bool) (hplain : ∀ t ∈ reg, plainBlock hasBundle t.body = true) :
+    ∀ (d : Nat) (name : Bytes) (t : Registry.Tmpl) (ce : Spec.Eval.CallEnv) (out : Bytes), Registry.lookup reg name = some t →
+      Spec.Eval.renderTmpl reg hasBundle none d t ce = .val out → refCall F reg d t ce = .val out
+  | 0, _, _, _, _, _, h => by simp [Spec.Eval.renderTmpl] at h
+  | d + 1, name, t, ce, out, hl, h => by
+    rw [Spec.Eval.renderTmpl] at h
+    simp only [refCall]
+    have hb := spec_le_ref_block F (tmplAe t) hesc reg hasBundle ce.entry (refCall F reg d) (Spec.Eval.renderTmpl reg hasBundle none d)
+      (fun name t ce out hl h => renderTmpl_le hesc hasBundle hplain d name t ce out hl h) t.body _ out
+      (hplain t (mem_of_lookup reg hl)) h
+    cases hbody : t.body with
+    | mk p cmds => rw [hbody] at hb; simpa [refBlock, blockCmds] using hb
+
+/-- where a generated function throws, Spec/Eval does not render: `CallRelE` against Spec/Eval.renderTmpl itself -/
+theorem calls_table_throw (hesc : EscapeHtmlIs F) (hasBundle : Bool) (hplain : ∀ t ∈ reg, plainBlock hasBundle t.body = true)
+    (htab : TableOk reg table) (d : Nat) (e : Spec.Eval.Binds) :
+    CallRelE (callFn F table fuel d) ⟨reg, e, Spec.Eval.renderTmpl reg hasBundle none d⟩ := by
+  intro name ce jd jij hj hij hgl hg callee out hlk hc
+  have hlk' : Registry.lookup reg name = some callee := hlk
+  exact (calls_table_correct F reg table fuel htab d e).2 name ce jd jij hj hij hgl hg callee out hlk
+    (renderTmpl_le F reg hesc hasBundle hplain d name callee ce out hlk' hc)
+
+/-- PARTIAL (C04, a whole registry, the converse against Spec/Eval.render itself).  Same hypotheses as
+    `gen_correct_registry_partial` (`TableOk`, no print directives, `EscapeHtmlIs`): where Spec/Eval.render renders the
+    template `name` on `data`, the generated function — called on the JSON image of the data, its calls served by the
+    table to the same depth — returns exactly this text or leaves the common subset (`unspec`: a print of a list or a
+    map, an integer beyond 2^53, the loop bound); it does NOT throw. -/
 theorem gen_complete_registry_spec_partial (hesc : EscapeHtmlIs F) (msgs : Bool)
     (hplain : ∀ t ∈ reg, plainBlock msgs t.body = true)
     (htab : TableOk reg table) (globals : Spec.Eval.Binds) (ij : Option Spec.Eval.Binds) (name : Bytes)
     (data : Spec.Eval.Binds) (jd : List (Bytes × JVal)) (hj : C04c.toJsKvs data = some jd)
     (jij : Option (List (Bytes × JVal))) (hij : IjRel ij jij) (hgl : GlobRel globals) (d : Nat)
-    (hthrow : CallRelE (callFn F table fuel d) ⟨reg, data, Spec.Eval.renderTmpl reg msgs none d⟩)
     (text : Bytes) (ht : Spec.Eval.render reg globals ij msgs name data d = .val text) :
     callFn F table fuel d name (.obj jd) jij = .val (.str text) ∨ callFn F table fuel d name (.obj jd) jij = .unspec := by
   cases hx : callFn F table fuel d name (.obj jd) jij with
@@ -426,7 +451,7 @@ theorem gen_complete_registry_spec_partial (hesc : EscapeHtmlIs F) (msgs : Bool)
     | none => simp [hlk] at ht
     | some t =>
       simp only [hlk] at ht
-      exact hthrow name ⟨data, ij, globals⟩ jd jij hj hij hgl hx t text hlk ht
+      exact calls_table_throw F reg table fuel hesc msgs hplain htab d data name ⟨data, ij, globals⟩ jd jij hj hij hgl hx t text hlk ht
   | unspec => exact Or.inr rfl
 
 end
@@ -535,6 +560,19 @@ theorem gen_correct_file_partial (F : Bytes → List Expr → JVal → JOut) (fu
     ∃ text, Spec.Eval.render (regOfFile f) globals ij msgs name data d = .val text ∧ r = .str text :=
   gen_correct_registry_partial F (regOfFile f) rr.1 fuel hesc msgs hplain (tableOk_of_file f rr hfile) globals ij name data jd hj jij hij hgl d r hx
 
+/-- … and conversely: where Spec/Eval.render renders a template of the file, its generated function returns this text or
+    leaves the common subset; it does not throw -/
+theorem gen_complete_file_partial (F : Bytes → List Expr → JVal → JOut) (fuel : Nat) (hesc : EscapeHtmlIs F) (f : SoyFile)
+    (rr : List JsFunc × Scope) (hfile : toFile f = some rr) (msgs : Bool)
+    (hplain : ∀ t ∈ regOfFile f, plainBlock msgs t.body = true)
+    (globals : Spec.Eval.Binds) (ij : Option Spec.Eval.Binds) (name : Bytes)
+    (data : Spec.Eval.Binds) (jd : List (Bytes × JVal)) (hj : C04c.toJsKvs data = some jd)
+    (jij : Option (List (Bytes × JVal))) (hij : IjRel ij jij) (hgl : GlobRel globals) (d : Nat) (text : Bytes)
+    (ht : Spec.Eval.render (regOfFile f) globals ij msgs name data d = .val text) :
+    callFn F rr.1 fuel d name (.obj jd) jij = .val (.str text) ∨ callFn F rr.1 fuel d name (.obj jd) jij = .unspec :=
+  gen_complete_registry_spec_partial F (regOfFile f) rr.1 fuel hesc msgs hplain (tableOk_of_file f rr hfile) globals ij name data jd hj
+    jij hij hgl d text ht
+
 end Dev
 
 /-! ## non-vacuity -/
@@ -604,6 +642,14 @@ set_option maxRecDepth 16000 in
 example : (match Spec.Eval.render (regOfFile plainFile) [] none false b!"sem.t" [(b!"a", .int 5)] 3 with
     | .val t => some t
     | _ => none) = some b!"[6:&lt;5&gt;:5]" := by decide +kernel
+
+/-- `gen_complete_file_partial` on it: for every `a` the function returns Spec/Eval's text or is `unspec`, never an error -/
+example (a : Int) (ha : SoyVerif.Spec.JsSem.exact a = true) (rr : List JsFunc × Scope) (hfile : toFile plainFile = some rr)
+    (text : Bytes) (ht : Spec.Eval.render (regOfFile plainFile) [] none false b!"sem.t" [(b!"a", .int a)] 3 = .val text) :
+    callFn sampleF rr.1 10 3 b!"sem.t" (.obj [(b!"a", .num a)]) none = .val (.str text) ∨
+      callFn sampleF rr.1 10 3 b!"sem.t" (.obj [(b!"a", .num a)]) none = .unspec :=
+  gen_complete_file_partial sampleF 10 sampleF_escape plainFile rr hfile false plainFile_plain [] none b!"sem.t" _ _
+    (by simp [C04c.toJsKvs, C04c.toJsV, ha]) none rfl (exGlobRel _) 3 text ht
 
 /-- `gen_correct_file_partial` on it, for every `a` -/
 example (a : Int) (ha : SoyVerif.Spec.JsSem.exact a = true) (rr : List JsFunc × Scope) (hfile : toFile plainFile = some rr)
